@@ -143,7 +143,9 @@ def _init(lls, so, kernels, seed, cap):
 
 def rand_inputs(rng, n, elem):
     ft = np.float32 if elem == 4 else np.float64
-    kind = rng.randrange(4)
+    kind = rng.randrange(5)
+    if kind == 4:     # signed zeros and units: exposes +0 / -0 differences
+        return [rng.choice([0.0, -0.0, 1.0, -1.0]) for _ in range(n)]
     if kind == 0:
         return [float(rng.randint(-4, 4)) for _ in range(n)]
     if kind == 1:
@@ -307,3 +309,126 @@ def run(tag, cfg, kernels, seed=0, cap=60, jobs=14):
         r["cfg"] = cfg
         r["build_s"] = round(bt, 1)
     return results
+
+
+# ---------------------------------------------------------------------------------------------
+# mode U: two builds of the same kernels must have the same IEEE operation DAG (bit-for-bit identical results)
+# ---------------------------------------------------------------------------------------------
+def _interp_u(lls, kernels):
+    mod = None
+    for f in sorted(lls, key=lambda p: 0 if os.path.basename(p).startswith("vk") else 1):
+        mod = ir.parse_module(open(f).read(), mod)
+    out = {}
+    for k in kernels:
+        try:
+            m = ir.Machine(mod, in_elem=k.elem, opaque=True, max_paths=256)
+            out[k.name] = m.run_kernel("k_" + k.name)
+        except (ir.NotEncoded, ir.PathLimit) as e:
+            out[k.name] = ("not-encoded", str(e)[:200])
+    return out
+
+
+def run_u(tag, cfg_a, cfg_b, kernels, seed=0, samples=4000):
+    """returns result dicts: pass = identical path conditions and output DAGs in both builds (decided by structural identity of the hash-consed terms,
+    and for commutative re-orderings by z3 over uninterpreted IEEE operations); fail = a native bit difference was found on replay"""
+    os.makedirs(os.path.join(BUILD, "work", "e2"), exist_ok=True)
+    la, soa = build(tag, cfg_a, kernels, os.path.join(BUILD, "work", "e2", f"build-{tag}-{cfg_a}.log"))
+    lb, sob = build(tag, cfg_b, kernels, os.path.join(BUILD, "work", "e2", f"build-{tag}-{cfg_b}.log"))
+    ra, rb = _interp_u(la, kernels), _interp_u(lb, kernels)
+    na, nb = enc.Native(soa), enc.Native(sob)
+    rng = random.Random(seed + 12345)
+    results = []
+    for k in kernels:
+        t0 = time.time()
+        a, b = ra[k.name], rb[k.name]
+        res = dict(site=k.site, kernel=k.name, cfg=f"{cfg_a}~{cfg_b}", status="pass", detail="", secs=0.0, queries=1, paths=0, validated=0)
+        if isinstance(a, tuple) or isinstance(b, tuple):
+            res.update(status="inconclusive", detail=f"kernel not encoded in mode U: {a[1] if isinstance(a, tuple) else b[1]}")
+            results.append(res)
+            continue
+        res["paths"] = len(a)
+        same = len(a) == len(b)
+        if same:
+            # paths are explored in the same deterministic order in both builds
+            um = {}
+            for (pca, oa), (pcb, ob) in zip(a, b):
+                pca, pcb = [enc.unorm(c, um) for c in pca], [enc.unorm(c, um) for c in pcb]
+                oa, ob = {j: enc.unorm(t, um) for j, t in oa.items()}, {j: enc.unorm(t, um) for j, t in ob.items()}
+                if pca != pcb or oa != ob:
+                    same = False
+                    # commutative re-ordering? decide with z3 over uninterpreted functions
+                    try:
+                        ue = enc.UEnc()
+                        s = z3.Solver()
+                        s.set("timeout", 20000)
+                        diffs = [ue.term(oa[j]) != ue.term(ob[j]) for j in oa if j in ob]
+                        s.add(z3.Or(*diffs) if diffs else z3.BoolVal(False))
+                        if pca == pcb and set(oa) == set(ob) and s.check() == z3.unsat:
+                            same = True
+                            continue
+                    except Exception:
+                        pass
+                    break
+        if not same:
+            # the DAGs differ: look for a native bit difference
+            ft = np.float32 if k.elem == 4 else np.float64
+            found = None
+            for _ in range(samples):
+                xs = rand_inputs(rng, k.nin, k.elem)
+                oa_, ob_ = na.call("k_" + k.name, xs, k.nout, k.elem), nb.call("k_" + k.name, xs, k.nout, k.elem)
+                for j in range(k.nout):
+                    x, y = ft(oa_[j]), ft(ob_[j])
+                    if not ((x == y and np.signbit(x) == np.signbit(y)) or (x != x and y != y)):
+                        found = (xs, j, float(x), float(y))
+                        break
+                if found:
+                    break
+            if found:
+                res.update(status="fail", reproduced=True, inputs=found[0], native=[found[2], found[3]], label=f"output {found[1]}",
+                           detail=f"builds {cfg_a} and {cfg_b} compute different IEEE operation DAGs and differ natively: inputs={found[0]} out[{found[1]}]: {found[2]!r} vs {found[3]!r}")
+            else:
+                res.update(status="inconclusive", detail=f"builds {cfg_a} and {cfg_b} have different operation DAGs but no native bit difference was found in {samples} samples")
+        res["secs"] = time.time() - t0
+        results.append(res)
+    return results
+
+
+def run_syntactic(tag, cfg, kernels, seed=0, samples=2000):
+    """obligation: every output term of the (opaque, mode-U) symbolic execution IS the expected term (k.expect_terms(nin) -> list of terms); otherwise the kernel is
+    replayed natively against k.expect_num(xs) and a bit difference is a violation."""
+    os.makedirs(os.path.join(BUILD, "work", "e2"), exist_ok=True)
+    lls, so = build(tag + "s", cfg, kernels, os.path.join(BUILD, "work", "e2", f"build-{tag}s-{cfg}.log"))
+    got = _interp_u(lls, kernels)
+    nat = enc.Native(so)
+    rng = random.Random(seed + 777)
+    out = []
+    for k in kernels:
+        t0 = time.time()
+        res = dict(site=k.site, kernel=k.name, cfg=cfg, status="pass", detail="", secs=0.0, queries=1, paths=0, validated=0, desc=k.desc)
+        g = got[k.name]
+        want = k.expect_terms()
+        ok = not isinstance(g, tuple) and len(g) == 1 and not g[0][0] and [g[0][1].get(j) for j in range(k.nout)] == want
+        if not ok:
+            ft = np.float32 if k.elem == 4 else np.float64
+            found = None
+            for _ in range(samples):
+                xs = rand_inputs(rng, k.nin, k.elem)
+                if rng.random() < 0.5:
+                    xs = [float(ft(rng.choice([-7.5, -5.0, -3.0, -1.0, 1.0, 2.0, 3.0, 5.0, 7.5, 1e10]))) for _ in range(k.nin)]
+                o = nat.call("k_" + k.name, xs, k.nout, k.elem)
+                w = k.expect_num(xs)
+                for j in range(k.nout):
+                    a, b = ft(o[j]), ft(w[j])
+                    if not (a == b or (a != a and b != b)):
+                        found = (xs, j, float(a), float(b))
+                        break
+                if found:
+                    break
+            if found:
+                res.update(status="fail", reproduced=True, inputs=found[0], native=[found[2]], label=f"output {found[1]}",
+                           detail=f"output {found[1]} is not the primitive operation of its lane operands: inputs={found[0]} got {found[2]!r}, primitive gives {found[3]!r}")
+            else:
+                res.update(status="inconclusive", detail="output terms are not syntactically the expected primitive operations, but no native difference was found: " + (g[1] if isinstance(g, tuple) else "different DAG"))
+        res["secs"] = time.time() - t0
+        out.append(res)
+    return out
